@@ -54,14 +54,23 @@ def havoc_value(ex: Any, v: V, name: str, st: State) -> Tuple[Optional[V], State
     return nv, st
 
 
-def heap_havoc(ex: Any, body: List[ast.stmt], st: State) -> State:
+def heap_havoc(ex: Any, body: List[ast.stmt], st: State, hint: Any = None) -> State:
     """Havoc the heap components the loop body can write (syntactic over-approximation).  Mutator calls whose receiver is a
     plain local name bound to a list are havoc'd *at that list's address only*; anything else havocs whole components."""
     mut_all = False
+    dict_all = False
+    callee_mods: Set[str] = set()
     mut_names: Set[str] = set()
     attrs: Set[str] = set()
     for s in body:
         for n in ast.walk(s):
+            if isinstance(n, ast.Call):
+                # calls of functions under contract: their modifies clauses are written by the loop body too
+                cname = n.func.attr if isinstance(n.func, ast.Attribute) else (n.func.id if isinstance(n.func, ast.Name) else None)
+                if cname:
+                    for tgt, cc in ex.registry.items():
+                        if cc.modifies and (tgt.endswith("." + cname) or tgt.endswith("::" + cname)):
+                            callee_mods.update(m for m in cc.modifies if not m.startswith("param:"))
             if isinstance(n, ast.Call) and isinstance(n.func, ast.Attribute) and n.func.attr in MUTATORS:
                 if isinstance(n.func.value, ast.Name) and isinstance(st.env.get(n.func.value.id), VList):
                     mut_names.add(n.func.value.id)
@@ -73,9 +82,10 @@ def heap_havoc(ex: Any, body: List[ast.stmt], st: State) -> State:
                 if isinstance(n.value, ast.Name) and isinstance(st.env.get(n.value.id), VList):
                     mut_names.add(n.value.id)
                 elif isinstance(n.value, ast.Name) and isinstance(st.env.get(n.value.id), VDict):
-                    pass  # value-semantics dict: rebinding, handled as a variable
+                    dict_all = True   # dicts are heap objects: the store writes the D.map / D.dom components
                 else:
                     mut_all = True
+                    dict_all = True
             if isinstance(n, ast.AugAssign) and isinstance(n.target, ast.Name) and isinstance(st.env.get(n.target.id), VList):
                 mut_names.add(n.target.id)
     st = st.copy()
@@ -85,11 +95,26 @@ def heap_havoc(ex: Any, body: List[ast.stmt], st: State) -> State:
             cur = ex.known_heap_keys.get(key)
             if cur is None:
                 continue
-        hit = (key.startswith("L.") and mut_all) or any(key.startswith("F:") and key.split(".", 1)[1].split("#")[0] in
+        if hint is not None and key.startswith(("L.", "D.")):
+            if key in hint:
+                st.heap[key] = z3.Const(fresh_name(f"H<{key}>"), cur.sort())
+            continue
+        hit = (key.startswith("L.") and mut_all) or (key.startswith("D.") and dict_all) or key in callee_mods or any(key.startswith("F:") and key.split(".", 1)[1].split("#")[0] in
                                                         {a, "_" + a} for a in attrs) or key in ex.loop_extra_havoc
         if hit:
             st.heap[key] = z3.Const(fresh_name(f"H<{key}>"), cur.sort())
-    if not mut_all:
+    # components that are first read inside / after the loop: unknown as well (State.harr consults the rule)
+    rid = fresh_name("hv").replace("!", "_")
+    attr_names = set(attrs)
+
+    def rule(key: str, hint=hint, mut_all=mut_all, dict_all=dict_all, callee_mods=frozenset(callee_mods), attr_names=frozenset(attr_names),
+             extra=frozenset(ex.loop_extra_havoc)) -> bool:
+        if hint is not None and key.startswith(("L.", "D.")):
+            return key in hint
+        return ((key.startswith("L.") and mut_all) or (key.startswith("D.") and dict_all) or key in callee_mods or key in extra
+                or (key.startswith("F:") and key.split(".", 1)[1].split("#")[0] in {x for a in attr_names for x in (a, "_" + a)}))
+    st.havoc_rules = st.havoc_rules + ((rid, rule),)
+    if not mut_all and hint is None:
         for nm in sorted(mut_names):
             l = st.env[nm]
             st = ex.forget_len(l, st)
@@ -191,7 +216,16 @@ def invariant_loop(ex: Any, s: Any, st: State, invs: List[Any], it: Optional[VLi
         ex.oblige(stx, "inv-entry", iv.label, _b(g), tags=iv.tags, where=where)
     # 2. havoc
     names = assigned_names(s.body, s.target if is_for else None)
-    sth = heap_havoc(ex, s.body, st)
+    sth = heap_havoc(ex, s.body, st, getattr(ex.contract, "loop_havoc", {}).get(loop_ordinal(ex, s, st)))
+    pre_heap = dict(st.heap)
+    post_heap = dict(sth.heap)
+    last_rule = sth.havoc_rules[-1][1]
+
+    def covered(key: str) -> bool:
+        a, b = post_heap.get(key), pre_heap.get(key)
+        if a is not None and (b is None or not a.eq(b)):
+            return True
+        return bool(last_rule(key))
     for n in sorted(names):
         if n in sth.env:
             if is_for and any(isinstance(t, ast.Name) and t.id == n for t in ast.walk(s.target)):
@@ -218,7 +252,7 @@ def invariant_loop(ex: Any, s: Any, st: State, invs: List[Any], it: Optional[VLi
             if isinstance(x, (VRef, VEnum, VUnion)):
                 st_body = st_body.assume(ex.type_constraint(x))
             st_body = ex.assign_target(s.target, x, st_body)
-            yield from _body_paths(ex, s, st_body, invs, {"i": VInt(idx.term + 1), "it": it}, where)
+            yield from _body_paths(ex, s, st_body, invs, {"i": VInt(idx.term + 1), "it": it}, where, covered)
         st_exit = sti.assume(idx.term >= n).decide("exit")
     else:
         conds = list(ex.ev(s.test, sti))
@@ -226,7 +260,7 @@ def invariant_loop(ex: Any, s: Any, st: State, invs: List[Any], it: Optional[VLi
         for c, stc in conds:
             for val, st2 in ex.branch(ex.truth_st(c, stc), stc, f"while{s.lineno}"):
                 if val:
-                    yield from _body_paths(ex, s, st2.decide("iter"), invs, {}, where)
+                    yield from _body_paths(ex, s, st2.decide("iter"), invs, {}, where, covered)
                 else:
                     st_exit_list.append(st2.decide("exit"))
         for st_exit in st_exit_list:
@@ -243,10 +277,29 @@ def invariant_loop(ex: Any, s: Any, st: State, invs: List[Any], it: Optional[VLi
             yield "fall", None, st_exit
 
 
-def _body_paths(ex: Any, s: Any, st_body: State, invs: List[Any], extra_next: Dict[str, Any], where: str
+def _loop_frame(ex: Any, st_body: State, st2: State, where: str, covered: Any) -> None:
+    """The havoc before the loop is a guess about what the body writes (syntactic, or the contract's hint).  Check it: a heap
+    component that was not havoc'd must be left unchanged by the body (else the exit state would keep its stale entry value)."""
+    for key, arr in st2.heap.items():
+        if covered is None or covered(key):
+            continue
+        a0 = st_body.heap.get(key)
+        if a0 is None:
+            a0 = st_body.harr(key, arr.sort().domain(), arr.sort().range())
+        if arr.eq(a0):
+            continue
+        r = z3.Int(fresh_name("lf"))
+        from .state import ALLOC0
+        ex.oblige(st2, "frame", f"loop-body-leaves:{key}", z3.ForAll([r], z3.Select(arr, r) == z3.Select(a0, r)),
+                  tags=list(ex.contract.tags), where=where,
+                  note="the loop body changes a heap component that the loop havoc does not cover")
+
+
+def _body_paths(ex: Any, s: Any, st_body: State, invs: List[Any], extra_next: Dict[str, Any], where: str, covered: Any = None
                 ) -> Iterator[Tuple[str, Any, State]]:
     for kind, payload, st2 in ex.exec_block(s.body, st_body):
         if kind in ("fall", "continue"):
+            _loop_frame(ex, st_body, st2, where, covered)
             for iv in invs:
                 g, stx = eval_inv(ex, iv, st2, extra_next)
                 ex.oblige(stx, "inv-preserve", iv.label, _b(g), tags=iv.tags, where=where)
